@@ -304,6 +304,27 @@ static std::string run_program(SChild &c, const std::string &in)
 	}
 }
 
+// what a catalogue command writes to its stdout+stderr pipe when fed `in` and left to finish:
+// used by the reference models (the simulated children produce exactly this, in scheduled pieces)
+std::string catalogue_output(const std::string &cmd, const std::string &in)
+{
+	SChild c;
+	c.cmd = cmd;
+	K.classify(c);
+	std::string out = c.err + c.out;
+	if (c.consume == 2) {
+		std::string o = in;
+		if (c.prog == P_TRUP) for (auto &ch : o) ch = (char) (ch >= 'a' && ch <= 'z' ? ch - 32 : ch);
+		if (c.prog == P_TRLOW) for (auto &ch : o) ch = (char) (ch >= 'A' && ch <= 'Z' ? ch + 32 : ch);
+		out += o;
+	} else if (c.consume == 1) out += run_program(c, in);
+	else if (c.consume == 3) {
+		long n = 0;
+		for (char ch : in) { if (n >= c.headn) break; out += ch; if (ch == '\n') n++; }
+	}
+	return out;
+}
+
 void Kernel::child_exit(SChild &c, int status)
 {
 	c.exited = true; c.status = status;
@@ -1055,6 +1076,11 @@ int sim_poll(struct pollfd *pf, unsigned long n, int timeout)
 			K.ev("poll", 0, 1);
 			return 0;
 		}
+	}
+	// the children may have been scheduled before the editor's poll looks at the pipes
+	if (!only_tty && K.sched.chance(1, 2)) {
+		long pre = K.sched.range(1, 4);
+		while (pre-- > 0 && K.any_child_can_progress()) K.child_step();
 	}
 	long guard = 0;
 	for (;;) {
